@@ -257,6 +257,12 @@ func runPipe(c pipeCfg) pipeObs {
 		}
 	}
 	d := dseq.Load()
+	if c.mode == 6 {
+		// The peer disconnects itself when the handshake fails, possibly before
+		// our own request: "returned before our request" is then not "queued
+		// before the disconnect request".
+		d = 0
+	}
 	for _, id := range ids {
 		obs.done[id] = len(doneCh[id])
 		if x := ret[id].Load(); x != 0 && d != 0 && x < d {
